@@ -157,6 +157,76 @@ def task_case(ci: int, pi: int, kind: str, out: list):
     return t, True
 
 
+# --- defaults and bound values that do not compare to a plain bool (arrays): their own small family, compared with a
+# deep equality that understands arrays; every (callable, positional tuple, keyword binding) combination is tried
+import numpy as _np
+
+
+def g_arr(a, w=_np.arange(3.0)):
+    return a
+
+
+def g_arr_kwonly(a: int = 0, *, w=_np.zeros((2, 2)), s: str = "t"):
+    return a
+
+
+def g_arr1(w=_np.ones(1), v=_np.zeros(0)):
+    return w
+
+
+ARRAY_CALLABLES = {f.__name__: f for f in (g_arr, g_arr_kwonly, g_arr1)}
+ARRAY_POS = [(), (_np.arange(2),), (1, _np.ones((1, 2)))]
+ARRAY_KW = {"none": {}, "rebind-w": {"w": _np.full(2, 5.0)}, "w-scalar": {"w": 4}, "other": {"zz": _np.zeros(2)}}
+
+
+def deep_eq(x, y) -> bool:
+    if isinstance(x, _np.ndarray) or isinstance(y, _np.ndarray):
+        return isinstance(x, _np.ndarray) and isinstance(y, _np.ndarray) and x.dtype == y.dtype and x.shape == y.shape and bool((x == y).all())
+    if isinstance(x, dict) and isinstance(y, dict):
+        return list(x) == list(y) and all(deep_eq(x[k], y[k]) for k in x)
+    if isinstance(x, (list, tuple)) and type(x) is type(y):
+        return len(x) == len(y) and all(deep_eq(a, b) for a, b in zip(x, y))
+    return type(x) is type(y) and x == y
+
+
+def array_case(name: str, pi: int, kwname: str, out: list) -> bool:
+    f = ARRAY_CALLABLES[name]
+    rp = {"kind": "array", "callable": name, "pos": pi, "kw": kwname}
+    schema, defaults, ret = expected_schema(f)
+    try:
+        base = TaskBuilder.from_callable(f)
+    except Exception as e:
+        out.append(({"monitor": "from_callable_raised", "cause": f"{type(e).__name__} in {where_of(e)}; a default that is an array"}, f"{name}: {e!r}", rp))
+        return True
+    if dict(base.definition.input_schema) != schema or not deep_eq(dict(base.static_input_kw), defaults):
+        out.append(({"monitor": "from_callable_schema", "cause": "schema/defaults differ from the signature (array defaults)"}, f"{name}: {base.definition.input_schema} {base.static_input_kw}", rp))
+    pos, kw = ARRAY_POS[pi], ARRAY_KW[kwname]
+    try:
+        t = base.with_values(*pos, **kw)
+    except Exception as e:
+        out.append(({"monitor": "with_values_raised", "cause": f"{type(e).__name__} in {where_of(e)}; array values"}, f"{name}.with_values(*{pos}, **{kw}) -> {e!r}", rp))
+        return True
+    if not deep_eq(dict(t.static_input_ps), {str(i): v for i, v in enumerate(pos)}):
+        out.append(({"monitor": "with_values_positional", "cause": "positional array values not stored under their index"}, f"{name}.with_values(*{pos}) -> {t.static_input_ps}", rp))
+    if not deep_eq(dict(t.static_input_kw), {**defaults, **kw}):
+        out.append(({"monitor": "with_values_keyword", "cause": "keyword array values/defaults not stored under their names"}, f"{name}.with_values(**{kw}) -> {t.static_input_kw}", rp))
+    if not deep_eq(dict(base.static_input_kw), defaults) or dict(base.static_input_ps):
+        out.append(({"monitor": "with_values_mutates", "cause": "with_values changed the task it was called on (array values)"}, name, rp))
+    # the task goes into a job unchanged
+    try:
+        res = JobBuilder().with_node("n", t).build()
+        if res.e:
+            if kwname != "other":  # an unknown keyword is a legitimate problem; nothing else in this family is
+                out.append(({"monitor": "build_rejected", "cause": "a task with array values and no edges was rejected"}, f"{name}: {res.e}", rp))
+            return True
+        ti = res.t.tasks["n"]
+        if not deep_eq(dict(ti.static_input_kw), {**defaults, **kw}) or not deep_eq(dict(ti.static_input_ps), {str(i): v for i, v in enumerate(pos)}):
+            out.append(({"monitor": "build_changes_values", "cause": "array values differ in the built job"}, f"{name}: {ti.static_input_kw} {ti.static_input_ps}", rp))
+    except Exception as e:
+        out.append(({"monitor": "build_raised", "cause": f"{type(e).__name__} in {where_of(e)}; array values"}, f"{name}: {e!r}", rp))
+    return True
+
+
 def compatible(t1: str, t2: str) -> bool | None:
     """reference notion of 'compatible declared type': None = undeclared on either side (no constraint)"""
     if t1 == "Any" or t2 == "Any":
@@ -303,6 +373,13 @@ def run(ctx):
                     n += 1
                     if POS[pi] or kind != "none":
                         nontrivial.add((ci, pi, kind))
+    n_arr = 0
+    for name in ARRAY_CALLABLES:
+        for pi in range(len(ARRAY_POS)):
+            for kwname in ARRAY_KW:
+                n_arr += array_case(name, pi, kwname, out)
+                nontrivial.add((name, pi, kwname))
+    n += n_arr
     pairs = [(si, di, vi) for si in range(len(CALLABLES)) for di in range(len(CALLABLES)) for vi in range(4)]
     pairs += [(si, di, 4) for si in (1, 2, 6) for di in range(len(CALLABLES))]  # sources with named outputs only
     if ctx.quick:
@@ -317,7 +394,7 @@ def run(ctx):
         ctx.add_violation(common.Violation(sig, msg, rp))
     ctx.coverage.update(
         evaluations=n, distinct_nontrivial=nt, exhaustive=True,
-        rule="callables %s x positional alphabets %s x keyword kinds %s for with_values; for every (source, sink, sink-static variant) pair every single edge over {existing,dangling source} x {existing,dangling output} x {existing,dangling sink} x {existing kw params, unknown kw, position 0, position 5}, each extended by a second edge (3 choices) and by a node replacement, all on persistent builders; non-trivial = with_values with at least one value / a build with at least one edge (distinct edge tuple per pair)" % ([f.__name__ for f in CALLABLES], POS, KW_KINDS),
+        rule="callables %s x positional alphabets %s x keyword kinds %s for with_values; for every (source, sink, sink-static variant) pair every single edge over {existing,dangling source} x {existing,dangling output} x {existing,dangling sink} x {existing kw params, unknown kw, position 0, position 5}, each extended by a second edge (3 choices) and by a node replacement, all on persistent builders; non-trivial = with_values with at least one value / a build with at least one edge (distinct edge tuple per pair); array family: callables whose defaults are numpy arrays (3) x positional tuples holding arrays (3) x keyword bindings (4), compared element-wise and built into a one-node job" % ([f.__name__ for f in CALLABLES], POS, KW_KINDS),
     )
     ctx.sample({"task": "f_typed.with_values(1, 'z', b='s')", "expect": {"static_input_ps": {"0": 1, "1": "z"}, "static_input_kw": {"b": "s"}}})
     ctx.sample({"builder": ["with_node('a', f_ret)", "with_node('b', f_typed)", "with_edge('a','ghost','a','0')", "build()"], "expect": "problems list, never an exception"})
@@ -327,7 +404,9 @@ def run(ctx):
 
 def replay(ctx, data):
     out: list = []
-    if data["kind"] == "task":
+    if data["kind"] == "array":
+        array_case(data["callable"], data["pos"], data["kw"], out)
+    elif data["kind"] == "task":
         ci = [f.__name__ for f in CALLABLES].index(data["callable"])
         task_case(ci, data["pos"], data["kw"], out)
     else:
